@@ -96,6 +96,13 @@ class QCircuit:
         for key in reversed(self.qubit_map.keys()):
             if self.qubit_map[key] == i:
                 return key
+        if 0 <= i < self.num_qubits:
+            # a qubit whose name was given to another qubit (a variable assigned again) is known
+            # by its index
+            name = f"q{i}"
+            while name in self.qubit_map:
+                name += "_"
+            return name
         raise Exception(f"Qubit with index {i} not found")
 
     def __repr__(self):
